@@ -49,7 +49,7 @@ var c09 = core.Register(&core.Prop{
 	CaseTimeoutSec:   func(tier string) int { return pickTier(tier, 240, 900) },
 	Floors: func(c map[string]int64, tier string) []string {
 		var out []string
-		for _, k := range []string{"goroutine_evaluations", "overlapping_evaluations_observed", "field_analyses", "own_parses", "own_error_parses", "race_log_files_scanned", "configs_completed", "runners_without_data_map", "runner_from_context_checks", "deep_evaluations_in_flight_together"} {
+		for _, k := range []string{"goroutine_evaluations", "overlapping_evaluations_observed", "field_analyses", "own_parses", "own_error_parses", "race_log_files_scanned", "configs_completed", "runners_without_data_map", "runner_from_context_checks", "deep_evaluations_in_flight_together", "own_probe_parses", "builtin_storm_evaluations"} {
 			if c[k] == 0 && k != "race_log_files_scanned" {
 				out = append(out, "coverage floor: no "+k)
 			}
